@@ -309,4 +309,12 @@ for fn, nm, path in ((3, 'swprintf_s', 'src/wchar/swprintf_s.c'), (4, 'vswprintf
       object_bits=10, cbmc_flags=ALLOC_FLAGS, functions=['_%s_chk' % nm], timeout=900, stubs=['stubs/libc_query.c'],
       bound='dmax = 512 (the heap-allocated no-space probe), libc vswprintf assumed contract returning -1 or a count')
 
+# ---- wide printf wrappers (buffer variants) against an assumed vswprintf contract
+for fn, nm, path in ((1, 'swprintf_s', 'src/wchar/swprintf_s.c'), (2, 'vswprintf_s', 'src/wchar/vswprintf_s.c'),
+                     (3, 'snwprintf_s', 'src/wchar/snwprintf_s.c'), (4, 'vsnwprintf_s', 'src/wchar/vsnwprintf_s.c')):
+    J('B.wprintf.%s' % nm, ['C04', 'C03', 'C05', 'C08', 'C01'], 'B', 'harness/wprintffam.c', sources=[path] + WCS_COMMON, defines=['FN=%d' % fn],
+      replay=False, unwind=24, object_bits=10, functions=['_%s_chk' % nm], timeout=900, stubs=['stubs/libc_query.c', 'stubs/memset_model.c'],
+      bound='dest of 5 wide characters, dmax 1..5; libc vswprintf assumed contract (each call may fail independently)',
+      assumptions=['libc vswprintf is an assumed contract: count < n and terminated, or -1'])
+
 BY_NAME = {j.name: j for j in JOBS}
